@@ -14,6 +14,6 @@ open(p, 'w').write(s.replace(old, new, 1))
 PY
 rc=$?
 if [ $rc -eq 0 ]; then
-  (cd /verif && VERIF_REPO="$W" ./check "$PROP" --tier quick 2>&1 | grep -v "^  " | tail -6)
+  (cd /verif && VERIF_EVIDENCE_DIR=/tmp/verif_seed_evidence VERIF_REPO="$W" ./check "$PROP" --tier quick 2>&1 | grep -v "^  " | tail -6)
 fi
 git -C /repo worktree remove --force "$W"
